@@ -653,6 +653,91 @@ fn check_line_reader(ch: &mut Choices, cx: &mut Ctx) -> R {
     Ok(())
 }
 
+/// An assembler-built `.debug_frame` (the C06 generator: every call-frame instruction, DW_CFA_set_loc among them) with
+/// generated relocations on the FDE's initial location and on the operands of DW_CFA_set_loc in the FDE: entries and
+/// unwind rows read through the relocating reader from scrambled fields equal those of the applied copy.
+fn check_frame_reader(ch: &mut Choices, cx: &mut Ctx) -> R {
+    use crate::cfimodel::{encode_cfi, CfiOp};
+    cx.label("frame sections (reading side, assembler-built)");
+    let mut case = crate::c06::gen_case(ch);
+    for _ in 0..6 {
+        if !case.eh {
+            break;
+        }
+        case = crate::c06::gen_case(ch);
+    }
+    if case.eh {
+        return Ok(());
+    }
+    // a DW_CFA_set_loc now and then even when the generator did not choose one
+    if ch.chance(128) {
+        let at = ch.below(case.fde.instrs.len() + 1);
+        let m = crate::enc::mask(case.cie.address_size);
+        case.fde.instrs.insert(at, CfiOp::SetLoc((case.fde.initial_raw & m).wrapping_add(ch.below(0x40) as u64) & m));
+    }
+    let built = crate::c06::build(&case);
+    let big = case.big;
+    let endian = if big { RunTimeEndian::Big } else { RunTimeEndian::Little };
+    let a = case.cie.address_size;
+    let m = crate::enc::mask(a);
+    let mut rs: Vec<w::Relocation> = Vec::new();
+    let mut table: BTreeMap<usize, u64> = BTreeMap::new();
+    let mut add = |at: usize, ch: &mut Choices| {
+        let symbol = ch.below(SYMBOL_ADDRESSES.len());
+        let r = w::Relocation { offset: at, size: a, target: w::RelocationTarget::Symbol(symbol), addend: (ch.below(0x100) * 8) as i64, eh_pe: None };
+        table.insert(at, reloc_value(&r) & m);
+        rs.push(r);
+    };
+    if ch.chance(200) {
+        add(built.fdes[0].initial_loc_at, ch);
+    }
+    let mut pos = built.fdes[0].instr_offset;
+    let mut set_locs = 0;
+    for op in &case.fde.instrs {
+        let mut t = crate::enc::W::new(big);
+        encode_cfi(op, a, 0, &mut t);
+        if matches!(op, CfiOp::SetLoc(_)) && pos + 1 + a as usize <= built.bytes.len() {
+            set_locs += 1;
+            if ch.chance(220) {
+                add(pos + 1, ch);
+            }
+        }
+        pos += t.len();
+    }
+    if rs.is_empty() {
+        return Ok(());
+    }
+    if set_locs > 0 {
+        cx.label("frame sections: relocated DW_CFA_set_loc operand");
+    }
+    let mut map = Map::new();
+    map.insert(".debug_frame", built.bytes.clone());
+    let mut relocs = Relocs::new();
+    relocs.insert(".debug_frame", rs);
+    let applied = apply(&map, &relocs, big);
+    let scrambled = scramble(&map, &relocs, ch.below(3) as u8, big);
+    cx.sample_with(|| format!("{} addr{} v{} fde instructions {:?}, relocated fields at {:x?}", if big { "BE" } else { "LE" }, a, case.cie.version, case.fde.instrs, table.keys().collect::<Vec<_>>()));
+    let fq = std::cell::RefCell::new(std::collections::BTreeSet::new());
+    let sa = crate::c06::section_address_size(&case);
+    let mut got = Vec::new();
+    let mut want = Vec::new();
+    {
+        let mut s = gimli::DebugFrame::from(gimli::RelocateReader::new(EndianSlice::new(&scrambled[".debug_frame"], endian), Table(&table, &fq)));
+        s.set_address_size(sa);
+        frame_dump(&s, &mut got);
+        let mut p = gimli::DebugFrame::new(&applied[".debug_frame"], endian);
+        p.set_address_size(sa);
+        frame_dump(&p, &mut want);
+    }
+    if got != want {
+        fail!("c18/read/frame/relocating-reader-differs", "{}", first_diff(&got, &want));
+    }
+    if want.len() >= 3 {
+        cx.nt();
+    }
+    Ok(())
+}
+
 // ---------------------------------------------------------------------------
 // frame tables
 // ---------------------------------------------------------------------------
@@ -798,7 +883,7 @@ impl Prop for C18 {
         "C18"
     }
     fn rule(&self) -> &'static str {
-        "generated unit tables (the C11 generator: 1-4 units, versions 2-5, both formats, address sizes 4/8, both byte orders, every attribute value kind, range/location lists, line programs, cross-unit references, expressions with addresses and entry references) and generated frame tables (.debug_frame v1/3/4 and .eh_frame, 1-2 CIEs with personality/LSDA in absolute, pc-relative and sized pointer encodings, 1-3 FDEs) are built twice: with constant addresses written through the plain writer, and with every address turned into symbol + addend written through a relocation-recording RelocateWriter. Writing side: applying the recorded relocations (symbols at fixed addresses, sections at 0, pc-relative records relative to their own position) must give sections byte-identical to the direct write; records must lie inside their section and not overlap. Reading side: the relocated fields of the recorded output are overwritten with garbage and the sections are parsed through RelocateReader with the recorded relocation table; a full dump (unit headers, every attribute raw and resolved, strings, lists, expressions, line programs and rows, CIE/FDE fields and unwind rows) must equal the dump of the pre-applied bytes through the plain reader, so any address or section offset that is parsed without going through the relocatable primitives shows up as a difference. Non-trivial = at least one symbol relocation and two section-offset relocations (units) or a pointer-encoded relocation (frames); distinct by choice string."
+        "generated unit tables (the C11 generator: 1-4 units, versions 2-5, both formats, address sizes 4/8, both byte orders, every attribute value kind, range/location lists, line programs, cross-unit references, expressions with addresses and entry references) and generated frame tables (.debug_frame v1/3/4 and .eh_frame, 1-2 CIEs with personality/LSDA in absolute, pc-relative and sized pointer encodings, 1-3 FDEs) are built twice: with constant addresses written through the plain writer, and with every address turned into symbol + addend written through a relocation-recording RelocateWriter. Writing side: applying the recorded relocations (symbols at fixed addresses, sections at 0, pc-relative records relative to their own position) must give sections byte-identical to the direct write; records must lie inside their section and not overlap. Reading side: the relocated fields of the recorded output are overwritten with garbage and the sections are parsed through RelocateReader with the recorded relocation table; a full dump (unit headers, every attribute raw and resolved, strings, lists, expressions, line programs and rows, CIE/FDE fields and unwind rows) must equal the dump of the pre-applied bytes through the plain reader, so any address or section offset that is parsed without going through the relocatable primitives shows up as a difference. Non-trivial = at least one symbol relocation and two section-offset relocations (units) or a pointer-encoded relocation (frames); distinct by choice string. Later additions: frame tables with LEB128 pointer encodings; a reading-side mode on assembler-built line programs with generated relocations on DW_LNE_set_address operands (incl. operands longer than the address size); the section named by the relocation of a macinfo / macro reference."
     }
     fn assumptions(&self) -> Vec<&'static str> {
         vec![
@@ -822,6 +907,8 @@ impl Prop for C18 {
             check_frames(ch, cx)
         } else if ch.chance(40) {
             check_line_reader(ch, cx)
+        } else if ch.chance(30) {
+            check_frame_reader(ch, cx)
         } else {
             check_units(ch, cx)
         }
